@@ -253,7 +253,7 @@ def upload(idx, sub, allow_expedited=True):
         if len(data) == size:
             raise Deviation("up-seg-c-bit", "segment %d delivered the last byte without c=1" % nseg)
         t ^= 1
-        if nseg > 5000:
+        if nseg > max(5000, size // 7 + 10):
             raise Deviation("up-seg-progress", "no end")
 
 
